@@ -185,7 +185,7 @@ def t_cli_fresh(part, nparts, pairs, wal=False):
 
 # ------------------------------------------------------------------------------------------------ library histories
 
-LIB_EVENTS = ['core-update', 'bulk-update', 'taxon-name-lookup', 'traverse-taxonomy', 'writable-sessionmaker-cls', 'writable-sessionmaker-flag', 'writable-session-open-close', 'load', 'query', 'orm-read', 'edit-attr', 'add-taxon', 'delete-genome', 'flush', 'autoflush-query', 'commit', 'rollback', 'close-session', 'gc', 'close-sigs']
+LIB_EVENTS = ['begin-nested', 'begin-nested-kw', 'nested-commit', 'nested-rollback', 'core-update', 'bulk-update', 'taxon-name-lookup', 'traverse-taxonomy', 'writable-sessionmaker-cls', 'writable-sessionmaker-flag', 'writable-session-open-close', 'load', 'query', 'orm-read', 'edit-attr', 'add-taxon', 'delete-genome', 'flush', 'autoflush-query', 'commit', 'rollback', 'close-session', 'gc', 'close-sigs']
 
 
 class World:
@@ -197,12 +197,13 @@ class World:
 		self.pending = 0       # number of edit/add/delete operations since load / rollback / close
 		self.done_writable = []
 		self.raw_write_pending = False
+		self.nested = []       # open SAVEPOINT transactions (begin_nested)
 
 	def key(self):
 		if self.db is None:
 			return ('unloaded', tuple(self.done_writable))
 		s = self.db.session
-		return ('loaded', len(s.new), len(s.dirty), len(s.deleted), self.session_closed, self.sigs_closed, self.raw_write_pending)
+		return ('loaded', len(s.new), len(s.dirty), len(s.deleted), self.session_closed, self.sigs_closed, self.raw_write_pending, min(len(self.nested), 2))
 
 
 WRITABLE = ['writable-sessionmaker-cls', 'writable-sessionmaker-flag', 'writable-session-open-close']
@@ -213,7 +214,8 @@ def lib_enabled(w):
 		# before the database is loaded: somebody else in the process may have asked for a WRITABLE session maker on the same file
 		# (without writing anything) - the default session obtained afterwards must still be read-only
 		return ['load'] + [e for e in WRITABLE if e not in w.done_writable]
-	ev = ['orm-read', 'taxon-name-lookup', 'traverse-taxonomy', 'core-update', 'bulk-update', 'edit-attr', 'add-taxon', 'delete-genome', 'flush', 'autoflush-query', 'commit', 'rollback', 'close-session', 'gc', 'load']
+	ev = ['orm-read', 'taxon-name-lookup', 'traverse-taxonomy', 'core-update', 'bulk-update', 'edit-attr', 'add-taxon', 'delete-genome', 'flush', 'autoflush-query', 'commit', 'rollback', 'close-session', 'gc', 'load',
+	      'begin-nested', 'begin-nested-kw', 'nested-commit', 'nested-rollback']
 	if not w.sigs_closed:
 		ev += ['query', 'close-sigs']
 	return ev
@@ -247,6 +249,7 @@ def lib_apply(w, ev):
 		w.sigs_closed = w.session_closed = False
 		w.pending = 0
 		w.raw_write_pending = False
+		w.nested = []
 		from gambit.db import ReadOnlySession
 		if not isinstance(w.db.session, ReadOnlySession):
 			return dict(kind='default-session-is-not-read-only', session_class=type(w.db.session).__name__)
@@ -310,15 +313,38 @@ def lib_apply(w, ev):
 		except Exception:
 			return None
 		return dict(kind='commit-did-not-raise')
+	elif ev in ('begin-nested', 'begin-nested-kw'):
+		# SAVEPOINT: with the stdlib sqlite3 driver a savepoint can be the outermost transaction, and releasing it commits
+		before = (len(s.new), len(s.dirty), len(s.deleted))
+		try:
+			w.nested.append(s.begin_nested() if ev == 'begin-nested' else s.begin(nested=True))       # both spellings of the session API
+		except Exception:
+			pass
+		after = (len(s.new), len(s.dirty), len(s.deleted))
+		if after != before:
+			return dict(kind='flush-wrote-pending-changes', via='begin_nested', before=before, after=after)
+	elif ev in ('nested-commit', 'nested-rollback'):
+		if w.nested:
+			tr = w.nested.pop()
+			before = (len(s.new), len(s.dirty), len(s.deleted))
+			try:
+				tr.commit() if ev == 'nested-commit' else tr.rollback()
+			except Exception:
+				pass            # the session may refuse; the files and the pending sets are what is judged
+			after = (len(s.new), len(s.dirty), len(s.deleted))
+			if ev == 'nested-commit' and after != before:
+				return dict(kind='flush-wrote-pending-changes', via='release of a savepoint', before=before, after=after)
 	elif ev == 'rollback':
 		s.rollback()
 		w.pending = 0
 		w.raw_write_pending = False
+		w.nested = []
 	elif ev == 'close-session':
 		s.close()
 		w.session_closed = True
 		w.pending = 0
 		w.raw_write_pending = False
+		w.nested = []
 	elif ev == 'gc':
 		gc.collect()
 	elif ev == 'close-sigs':
